@@ -8,8 +8,10 @@ as JSON for the TLA+ machine spec/routing/Hier.tla.  TLC is the oracle:
   T  HierTrace validates the link list returned by the implementation as a behaviour of the machine and prints the
               latency of the accepted behaviour (ACC lines).
 Python only renders, maps link names to link numbers (syntactically) and compares."""
-import json, math, os, re
+import json, math, os, random, re, threading
 import vlib, drivers
+
+_LOCK = threading.Lock()
 
 RSPEC = os.path.join(vlib.SPEC, "routing")
 TICK = 2.0 ** -20
@@ -477,10 +479,10 @@ def latency_matches(a, got):
 
 # ------------------------------------------------------------------------------------------- one batch: run, bind, M, T, compare
 
-def check_platforms(ctx, plats, tag, explore=True, print_exp=False, tlc_timeout=1500):
+def check_platforms(ctx, plats, tag, explore=True, print_exp=False, tlc_timeout=1500, mc_pairs=None, workers=None):
     """Runs the implementation on every platform, then M (optional) and T.  Reports violations through ctx.
     Returns per-platform dict with routes (records + 'ids'), acc, exp."""
-    results = vlib.parallel_map(lambda ip: run_driver(ctx, ip[1], "%s_%d" % (tag, ip[0])), list(enumerate(plats)))
+    results = [run_driver(ctx, pl, "%s_%d" % (tag, i)) for i, pl in enumerate(plats)]
     out = []
     items = []      # (p, s, d, ids) for T
     refs = []       # (platform index, route record)
@@ -490,8 +492,9 @@ def check_platforms(ctx, plats, tag, explore=True, print_exp=False, tlc_timeout=
                 plat.name, res["builderr"], plat.token_text()[:3000]))
         probs = bind_links(plat, res)
         for pr in probs:
-            ctx.violation("platform construction: " + pr, files={"platform.txt": plat.xml or plat.token_text()},
-                          signature="%s:construction:%s" % (ctx.prop, vlib.canon_hash([plat.token_text(), pr])))
+            with _LOCK:
+                ctx.violation("platform construction: " + pr, files={"platform.txt": plat.xml or plat.token_text()},
+                              signature="%s:construction:%s" % (ctx.prop, vlib.canon_hash([plat.token_text(), pr])))
         for r in res["routes"]:
             if "links" in r:
                 r["ids"] = [plat.lki.get(n, 0) for n in r["links"]]
@@ -502,25 +505,41 @@ def check_platforms(ctx, plats, tag, explore=True, print_exp=False, tlc_timeout=
     allpairs = []
     pair_pos = {}
     for pi, plat in enumerate(plats):
-        for s, d in plat.pairs:
+        prs = list(plat.pairs)
+        if mc_pairs is not None and len(prs) > mc_pairs:
+            prs = random.Random(vlib.canon_hash([plat.token_text(), ctx.seed])).sample(prs, mc_pairs)
+        for s, d in prs:
             pair_pos[(pi, s, d)] = len(allpairs)
             allpairs.append((pi + 1, s, d))
     exp = None
     if explore:
-        r, exp, dist = tlc_explore(ctx, plats, allpairs, tag, print_exp=print_exp, timeout=tlc_timeout)
-        ctx.add_tlc(r)
+        r, exp, dist = tlc_explore(ctx, plats, allpairs, tag, print_exp=print_exp, timeout=tlc_timeout, workers=workers)
+        with _LOCK:
+            ctx.add_tlc(r)
         if not r.ok:
             raise vlib.InfraError("the routing specification fails on a generated platform (%s %s): fix the spec or "
                                   "the generator\n%s" % (r.status, str(r.what)[:200], r.out[-4000:]))
-        ctx.cov.setdefault("mc", []).append({"tag": tag, "distinct": r.distinct, "generated": r.generated,
-                                             "wall_s": round(r.wall, 1), "pairs": len(allpairs)})
-        for o in out:
+        with _LOCK:
+            m = ctx.cov.setdefault("mc", {"runs": 0, "distinct": 0, "generated": 0, "pairs": 0, "wall_s": 0.0})
+            m["runs"] += 1
+            m["distinct"] += r.distinct
+            m["generated"] += r.generated
+            m["pairs"] += len(allpairs)
+            m["wall_s"] = round(m["wall_s"] + r.wall, 1)
+        for pi, o in enumerate(out):
             o["dist"] = dist
+            o["pnum"] = pi + 1
     # ---- T
-    r, acc = tlc_validate(ctx, plats, items, tag, timeout=tlc_timeout)
-    ctx.add_tlc(r)
+    r, acc = tlc_validate(ctx, plats, items, tag, timeout=tlc_timeout, workers=workers)
     need_ok(r, "trace validation")
-    ctx.cov["traces_validated_against_impl"] += len(items)
+    with _LOCK:
+        ctx.add_tlc(r)
+        ctx.cov["traces_validated_against_impl"] += len(items)
+        t = ctx.cov.setdefault("tv", {"runs": 0, "distinct": 0, "routes": 0, "wall_s": 0.0})
+        t["runs"] += 1
+        t["distinct"] += r.distinct
+        t["routes"] += len(items)
+        t["wall_s"] = round(t["wall_s"] + r.wall, 1)
     for (pi, rec), a in zip(refs, acc):
         rec["acc"] = a
     for o in out:
@@ -529,7 +548,7 @@ def check_platforms(ctx, plats, tag, explore=True, print_exp=False, tlc_timeout=
     return out
 
 
-def classify(ctx, plats, out, tag):
+def classify(ctx, plats, out, tag, workers=None):
     """Second look at the routes that the strict specification rejects: returns the list of (platform index, route
     record, signature or None, explanation).  A signature is given when the rejected route is explained by one of the
     defects recorded in KNOWN_FINDINGS.jsonl (see SIG_*), decided with TLC: flags of the expected behaviours (HierMC)
@@ -544,8 +563,9 @@ def classify(ctx, plats, out, tag):
         return []
     # expected behaviours of the rejected pairs (strict machine)
     pairs = [(pi + 1, rec["s"], rec["d"]) for pi, rec in bad if rec["s"] != "?"]
-    r, exp, _ = tlc_explore(ctx, plats, pairs, tag + "_cls", timeout=900, keep_going=True)
-    ctx.add_tlc(r)
+    r, exp, _ = tlc_explore(ctx, plats, pairs, tag + "_cls", timeout=900, keep_going=True, workers=workers)
+    with _LOCK:
+        ctx.add_tlc(r)
     if r.status not in ("ok", "invariant"):
         raise vlib.InfraError("classification run failed: %s %s\n%s" % (r.status, str(r.what)[:200], r.out[-3000:]))
     expmap = {}
@@ -553,8 +573,9 @@ def classify(ctx, plats, out, tag):
         expmap[(p - 1, s, d)] = e
     # the same routes under the machine that models the known reversal
     items = [(pi + 1, rec["s"], rec["d"], rec["ids"]) for pi, rec in bad if "ids" in rec]
-    r2, acc2 = tlc_validate(ctx, plats, items, tag + "_dev", dev="known", timeout=900)
-    ctx.add_tlc(r2)
+    r2, acc2 = tlc_validate(ctx, plats, items, tag + "_dev", dev="known", timeout=900, workers=workers)
+    with _LOCK:
+        ctx.add_tlc(r2)
     need_ok(r2, "trace validation (deviation run)")
     devacc = {}
     for (p, s, d, l), a in zip(items, acc2):
@@ -571,9 +592,11 @@ def classify(ctx, plats, out, tag):
         dfl = set(f for a in (da or []) for f in a["fl"])
         if da and "djkrev" in dfl:
             sig, why = SIG_DJKREV, "accepted by the machine that reverses the links of the multi-link routes of Dijkstra zones"
+        elif "djkpre" in flags and "ids" in rec and any(sorted(x["l"]) == sorted(rec["ids"]) for x in e):
+            sig, why = SIG_DJKREV, "the links of the Dijkstra zone are put in front of the route under construction"
         elif da and "uprev" in dfl:
             sig, why = SIG_UPREV, "accepted by the machine that reverses the multi-link routes taken on the way up"
-        elif "bypself" in flags and "ids" in rec:
+        elif "bypself" in flags:
             sig, why = SIG_BYPSELF, "the end point is the gateway of the bypass route: its route to itself is added"
         elif "offchain" in flags:
             sig, why = SIG_OFFCHAIN, "a gateway of the expected route is not in a zone above the end point"
@@ -810,8 +833,8 @@ def gen_hier(rng, name, levels=None, max_hosts=40, style=None):
         """returns (zone name, direct gateway candidates, all hosts/routers below)"""
         if level == levels:
             kind = rng.choice(LEAF_KINDS)
-            nh = rng.randint(1, 4)
-            if budget[0] < 4:
+            nh = rng.randint(2 if kind in SPK else 1, 4)
+            if budget[0] < 4 and kind not in ("full", "star", "empty"):
                 kind, nh = rng.choice(["full", "star", "empty"]), 1
             z, gws = leaf_zone(p, rng, nm, parent, kind, nh)
             zi = p.zi[z]
@@ -985,3 +1008,252 @@ def nested_star_example():
     p.pairs = p.all_pairs()
     p.meta = {"levels": 3, "style": "onchain"}
     return p
+
+
+# ------------------------------------------------------------------------------------------- C25: random graphs
+
+def gen_graph(rng, nmax=30, nmin=3):
+    """random connected graph description: nodes (hosts and routers), one-hop routes with 1..3 links, symmetrical or
+    declared in both directions with different links (then possibly of different lengths)"""
+    n = rng.randint(nmin, nmax)
+    nodes = [("h%d" % (i + 1), "host") if (i < 2 or rng.random() < 0.7) else ("r%d" % (i + 1), "router") for i in range(n)]
+    names = [x[0] for x in nodes]
+    order = list(names)
+    rng.shuffle(order)
+    und = set()
+    for i in range(1, n):
+        und.add((order[rng.randrange(i)], order[i]))
+    extra = rng.randint(0, n)
+    tries = 0
+    while extra > 0 and tries < 200 and n > 2:
+        tries += 1
+        a, b = rng.sample(names, 2)
+        if (a, b) in und or (b, a) in und:
+            continue
+        und.add((a, b))
+        extra -= 1
+    links = []   # (name, lat, split)
+    pool = []
+
+    def mk():
+        name = "l%d" % (len(links) + 1)
+        split = rng.random() < 0.25
+        links.append((name, rng.randint(0, 9), split))
+        tok = name + ((":U" if rng.random() < 0.7 else ":D") if split else "")
+        pool.append(tok)
+        return tok
+
+    def rl():
+        k = rng.choice([1, 1, 1, 2, 2, 3])
+        out = []
+        for _ in range(k):
+            t = rng.choice(pool) if pool and rng.random() < 0.25 else mk()
+            if t.split(":")[0] in [x.split(":")[0] for x in out]:
+                t = mk()
+            out.append(t)
+        return out
+
+    routes = []  # (s, d, links, sym)
+    for a, b in sorted(und):
+        if rng.random() < 0.55:
+            routes.append((a, b, rl(), True))
+        else:
+            routes.append((a, b, rl(), False))
+            routes.append((b, a, rl(), False))
+    loops = []
+    for nme, k in nodes:
+        if k == "host" and rng.random() < 0.1:
+            loops.append((nme, [mk()]))
+    return {"nodes": nodes, "links": links, "routes": routes, "loops": loops}
+
+
+def plat_from_graph(kind, g, name):
+    p = Plat(name)
+    p.zone("Z", kind)
+    for nme, k in g["nodes"]:
+        (p.host if k == "host" else p.router)(nme, "Z")
+    for nme, lat, split in g["links"]:
+        p.link(nme, "Z", lat, split=split)
+    for s, d, l, sym in g["routes"]:
+        p.route("Z", s, d, None, None, l, sym)
+    for h, l in g["loops"]:
+        p.route("Z", h, h, None, None, l, False)
+    hs = p.hosts()
+    if kind == "full":
+        declared = set()
+        for s, d, l, sym in g["routes"]:
+            declared.add((s, d))
+            if sym:
+                declared.add((d, s))
+        p.pairs = [(s, d) for s in hs for d in hs if s == d or (s, d) in declared]
+    else:
+        p.pairs = [(s, d) for s in hs for d in hs]
+    p.pass2 = kind == "dijkstracache"
+    p.meta = {"kind": kind, "nodes": len(g["nodes"]), "routes": len(g["routes"])}
+    return p
+
+
+# ------------------------------------------------------------------------------------------- C26: shapes
+
+def torus_shapes(maxdims=5, maxnodes=64, minsize=2):
+    out = []
+
+    def rec(prefix, prod):
+        if prefix:
+            out.append(list(prefix))
+        if len(prefix) == maxdims:
+            return
+        for d in range(minsize, maxnodes + 1):
+            if prod * d > maxnodes:
+                break
+            rec(prefix + [d], prod * d)
+    rec([], 1)
+    return out
+
+
+def fattree_shapes(maxleaves=64, maxswitches=80):
+    out = []
+    import itertools
+    for lv in (1, 2, 3):
+        for down in itertools.product((1, 2, 3, 4), repeat=lv):
+            n = 1
+            for d in down:
+                n *= d
+            if n > maxleaves or n < 2:
+                continue
+            for up in itertools.product((1, 2, 3), repeat=lv):
+                sw = 0
+                for l in range(1, lv + 1):
+                    c = 1
+                    for i in range(lv):
+                        c *= up[i] if i < l else down[i]
+                    sw += c
+                if sw > maxswitches:
+                    continue
+                for cnt in itertools.product((1, 2), repeat=lv):
+                    out.append(dict(lv=lv, down=list(down), up=list(up), cnt=list(cnt)))
+    return out
+
+
+def dragonfly_shapes(maxv=3):
+    out = []
+    for g in range(1, maxv + 1):
+        for c in range(1, maxv + 1):
+            for b in range(1, maxv + 1):
+                for n in range(1, maxv + 1):
+                    if g <= c * b and g * c * b * n >= 2:     # "the n-th router of the group" must exist
+                        out.append(dict(g=g, c=c, b=b, n=n))
+    return out
+
+
+def xml_cluster(name, n, ticks, bb, loop, lim, policy):
+    """a flat <cluster> (XML_reference.rst) and its description: a Star zone where host i has the up links
+    [limiter, private link (UP half), backbone], the same links backwards as down links, and an optional loopback"""
+    t = lambda k: repr(k * TICK) + "s"
+    attrs = ['id="%s"' % name, 'prefix="%s-"' % name, 'suffix=".x"', 'radical="0-%d"' % (n - 1), 'speed="1Gf"',
+             'bw="125MBps"', 'lat="%s"' % t(ticks), 'sharing_policy="%s"' % policy]
+    if bb is not None:
+        attrs += ['bb_bw="1GBps"', 'bb_lat="%s"' % t(bb)]
+    if loop is not None:
+        attrs += ['loopback_bw="1GBps"', 'loopback_lat="%s"' % t(loop)]
+    if lim:
+        attrs += ['limiter_link="2GBps"']
+    xml = ("<?xml version='1.0'?>\n<!DOCTYPE platform SYSTEM \"https://simgrid.org/simgrid.dtd\">\n"
+           "<platform version=\"4.1\">\n  <cluster %s/>\n</platform>\n" % " ".join(attrs))
+    p = Plat("xmlcluster-%s" % name)
+    p.xml = xml
+    p.zone(name, "star", emit=False)
+    if bb is not None:
+        p.link("%s_backbone" % name, name, bb, emit=False)
+    for i in range(n):
+        h = "%s-%d.x" % (name, i)
+        p.host(h, name, emit=False)
+        ln = "%s_link_%d" % (name, i)
+        if loop is not None:
+            p.link(ln + "_loopback", name, loop, emit=False)
+            p.route(name, h, h, None, None, [ln + "_loopback"], False, emit=False)
+        up = []
+        if lim:
+            p.link(ln + "_limiter", name, 0, emit=False)
+            up.append(ln + "_limiter")
+        if policy == "SPLITDUPLEX":
+            p.link(ln, name, ticks, split=True, emit=False)
+            up.append(ln + ":U")
+        else:
+            p.link(ln, name, ticks, emit=False)
+            up.append(ln)
+        if bb is not None:
+            up.append("%s_backbone" % name)
+        p.route(name, h, None, None, None, up, True, emit=False)
+    p.router("%s-%s_router.x" % (name, name), name, emit=False)
+    p.pairs = p.all_pairs()
+    p.meta = {"kind": "xml-cluster", "n": n, "backbone": bb is not None, "loopback": loop is not None, "limiter": bool(lim),
+              "policy": policy}
+    return p
+
+
+# ------------------------------------------------------------------------------------------- the common body of C24-C26
+
+def run_check(ctx, plats, chunk, nontrivial, rule, mc_pairs=None):
+    """chunks of platforms are processed in parallel (driver runs, one M and one T TLC run per chunk), rejections are
+    classified and confirmed by running the implementation a second time, then reported from the main thread."""
+    ctx.cov["rule"] = rule
+    chunks = [list(range(i, min(len(plats), i + chunk))) for i in range(0, len(plats), chunk)]
+    npar = max(1, min(4, len(chunks)))
+    workers = max(2, vlib.NCPU // npar)
+
+    def do(ci_idx):
+        ci, idx = ci_idx
+        sub = [plats[i] for i in idx]
+        out = check_platforms(ctx, sub, "c%d" % ci, mc_pairs=mc_pairs, workers=workers)
+        cls = classify(ctx, sub, out, "c%d" % ci, workers=workers)
+        # confirmation: the implementation must return the same thing when asked again
+        confirmed = []
+        again = {}
+        for pi, rec, sig, why, e in cls:
+            if pi not in again:
+                again[pi] = {(r["p"], r["s"], r["d"]): r for r in run_driver(ctx, sub[pi], "c%d_again%d" % (ci, pi))["routes"]}
+            r2 = again[pi].get((rec["p"], rec["s"], rec["d"]))
+            same = r2 is not None and r2.get("links") == rec.get("links") and ("err" in r2) == ("err" in rec) \
+                and ("abort" in r2) == ("abort" in rec)
+            if same:
+                confirmed.append((pi, rec, sig, why, e))
+            else:
+                with _LOCK:
+                    ctx.cov["unconfirmed_rejections"] = ctx.cov.get("unconfirmed_rejections", 0) + 1
+        return out, confirmed
+
+    results = vlib.parallel_map(do, list(enumerate(chunks)), nproc=npar)
+    allout = [None] * len(plats)
+    nacc = nrej = nknown = 0
+    kinds = {}
+    for (ci, idx), (out, cls) in zip(enumerate(chunks), results):
+        sub = [plats[i] for i in idx]
+        for j, i in enumerate(idx):
+            allout[i] = out[j]
+        report(ctx, sub, cls)
+        check_latencies(ctx, sub, out)
+        nrej += len(cls)
+        nknown += sum(1 for c in cls if c[2])
+        for pi, o in enumerate(out):
+            plat = sub[pi]
+            h = vlib.canon_hash(plat.xml or plat.token_text().split("\npair ")[0])
+            for z in plat.nz[1:]:
+                kinds[z["kind"]] = kinds.get(z["kind"], 0) + 1
+            for rec in o["res"]["routes"]:
+                if rec.get("p", 1) == 1 and rec["s"] != "?":
+                    ctx.count([h, rec["s"], rec["d"]], nontrivial=nontrivial(plat, rec["s"], rec["d"]))
+                if rec.get("acc"):
+                    nacc += 1
+            rs = [r for r in o["res"]["routes"] if r.get("acc") and len(r.get("links", [])) >= 3]
+            if rs:
+                r = rs[len(rs) // 2]
+                ctx.sample({"platform": plat.brief(), "pair": [r["s"], r["d"]], "route": r["links"], "latency": r["lat"],
+                            "accepted_with": r["acc"][0]}, limit=6)
+    ctx.cov["platforms"] = len(plats)
+    ctx.cov["zone_kinds"] = kinds
+    ctx.cov["routes_accepted"] = nacc
+    ctx.cov["routes_rejected"] = nrej
+    ctx.cov["routes_rejected_explained_by_known_findings"] = nknown
+    ctx.cov["exhaustive"] = False
+    return allout
